@@ -7,7 +7,6 @@ import (
 	"io"
 	"math"
 	"reflect"
-	"regexp"
 	"strings"
 	"time"
 	"unicode/utf8"
@@ -74,7 +73,7 @@ func jsonDupKeys(b []byte) (string, bool) {
 	}
 }
 
-var xsdDur = regexp.MustCompile(`^-?P(\d+Y)?(\d+M)?(\d+D)?(T(\d+H)?(\d+M)?(\d+(\.\d+)?S)?)?$`)
+// the lexical space of xsd:duration: xsdLexical (zz_leaffmt.go) - the expression alone admitted "-P", "P" and "PT"
 
 // c02CheckObject compares one struct value with the JSON object the library wrote for it, field by field,
 // using only reflection on the struct (jsonld tags) and encoding/json's decoding of the output.
@@ -139,7 +138,7 @@ func c02CheckObject(rv reflect.Value, m map[string]json.RawMessage, fail func(wh
 			}
 		case f.Type == tDur:
 			var s string
-			if err := json.Unmarshal(raw, &s); err != nil || !xsdDur.MatchString(s) {
+			if err := json.Unmarshal(raw, &s); err != nil || !xsdLexical(s) {
 				fail("duration "+term+" is an xsd:duration string", string(raw))
 			}
 		}
